@@ -503,6 +503,7 @@ def parse_unit(N, tier):
       "jwt_parse/contract_all_jwt_parse",
       replace=["jwt_parse_head/contract_rec_jwt_parse_head", "jwt_parse_payload/contract_rec_jwt_parse_payload"],
       stubs=VERIFY_JSON_STUBS + ["stubs/parse_env.c"], defines=["VERIF_TU_JWT_VERIFY", "VERIF_STRLEN_RECORD"], pre=[VS], flags=["--conversion-check"],
+      assumed_contracts=["jwt_parse_head/contract_rec_jwt_parse_head", "jwt_parse_payload/contract_rec_jwt_parse_payload"],
       unwindset="jwt_parse.0:%d,jwt_parse.1:%d" % (N + 2, N + 2), kind="bounded", bound="token length < %d (loops unwound %d times, unwinding assertions on)" % (N, N + 2),
       expect=["contract_all_jwt_parse\\.postcondition\\.9", "jwt_parse\\.unwind", "contract_rec_jwt_parse_head\\.precondition", "memcpy\\.assertion\\.1"],
       timeout=900, timeout_thorough=3000, tier=tier)
@@ -596,6 +597,7 @@ P["C07"]["units"].append(
       replace=["jwt_strcmp/contract_exact_jwt_strcmp", "process_octet/contract_C08_process_octet", "jwk_process_values/contract_shape_jwk_process_values"],
       stubs=LIBC + ["stubs/alloc.c", "stubs/jansson.c"], defines=["VERIF_TU_JWKS", "VERIF_ALLOC_RECORD_FAIL"], flags=[], object_bits=10,
       expect=["contract_C07_jwk_process_one\\.postcondition\\.3", "contract_shape_process_jwk\\.precondition"], timeout=900,
+      assumed_contracts=["jwk_process_values/contract_shape_jwk_process_values"],
       replay={"driver": "replay/r_C17_jwks.c"}))
 P["C17"]["units"].append(dict(P["C07"]["units"][-1], name="C17.jwk_process_one"))
 P["C08"]["units"] += [
@@ -629,6 +631,21 @@ def share(prop, names):
     for n in names:
         if n not in have:
             P[prop]["units"].append(_find(n))
+P["C01"]["units"] += [
+    U("C01.jwt_strcmp.shape", "jwt_strcmp (libjwt/jwt-memory.c), any two strings", "libjwt/jwt-memory.c", "contracts/jwt_c.h",
+      "size_t n1, n2; __CPROVER_assume(n1 < 0x10000000 && n2 < 0x10000000); char *a = VS(n1), *b = VS(n2); jwt_strcmp(a, b);",
+      "jwt_strcmp/contract_shape_jwt_strcmp", stubs=["stubs/libc.c", "stubs/ghost.c"], pre=[VS],
+      loops={"jwt_strcmp": [{"loop_id": 0, "vars": ["i", "ret", "len1", "len2", "len_max"], "assigns": "i, ret",
+                             "invariants": ["0 <= i && i <= len_max", "len_max == (len1 >= len2 ? len1 : len2)"], "decreases": "len_max - i"}]},
+      expect=["jwt_strcmp\\.loop_invariant_step", "jwt_strcmp\\.loop_decreases"]),
+    dict(_find("C11.jwt_base64uri_decode"), name="C01.jwt_base64uri_decode.shape", enforce="jwt_base64uri_decode/contract_shape_jwt_base64uri_decode", defines=["VERIF_TU_JWT"],
+         expect=["jwt_base64uri_decode\\.loop_invariant_step", "contract_C11_base64_decode\\.precondition"]),
+    dict(_find("C11.jwt_base64uri_encode"), name="C01.jwt_base64uri_encode.shape", enforce="jwt_base64uri_encode/contract_shape_jwt_base64uri_encode",
+         expect=["jwt_base64uri_encode\\.loop_invariant_step", "contract_C11shape_base64_encode\\.precondition"]),
+]
+share("C02", ["C01.jwt_strcmp.shape", "C01.jwt_base64uri_decode.shape", "C01.jwt_base64uri_encode.shape"])
+share("C09", ["C01.jwt_strcmp.shape", "C01.jwt_base64uri_decode.shape", "C01.jwt_base64uri_encode.shape"])
+share("C08", ["C01.jwt_strcmp.shape"])
 P["C02"]["units"].append(STRCMP_BOUNDED)
 share("C01", ["C02.jwt_strcmp_exact", "C02.bounded.jwt_strcmp_N90"])
 share("C03", ["C02.jwt_strcmp_exact", "C02.bounded.jwt_strcmp_N90", "C02.jwt_str_alg", "C02.jwt_parse_head", "C10.jwt_encode"])
